@@ -39,7 +39,7 @@ partial def drainAll (s : Sys) (rng : UInt64) : Sys × UInt64 :=
   drainAll (deliver s i) rng
 
 def sysKinds : List String := ["p", "q"]
-def sysIds : List String := ["1", "2"]
+def sysIds : List String := ["1", "2", "e/7"]   -- an id may contain "/" (only kind names may not)
 
 def observeSys (s : Sys) (order live : List String) : String :=
   let parts := order.filterMap fun id =>
